@@ -1,15 +1,23 @@
 """C06  Every formula sample is computed from inputs of a single timestamp — structure.
 
-  C06.ALL   apply() starts one fetch_next() per entry of _metric_fetchers (no filter) and waits with
-            return_when=ALL_COMPLETED; a missing/None result aborts the round.
+All roles are bound by dataflow (sa/props/_c06_util.py: reaching definitions, origin resolution through
+copies / tuple unpacking / private helpers, three-valued path conditions); no rule depends on a
+local-variable name, on the polarity or operand order of a condition, on if/else vs early return, on
+keyword vs positional arguments or on whether a sub-expression has a name.
+
+  C06.ALL   apply() starts one fetch_next() task per entry of _metric_fetchers (no filter) and awaits
+            asyncio.wait(..., ALL_COMPLETED, no timeout); while some task is pending or some result is
+            None neither the step evaluation nor a normal return is reachable.
   C06.ONE   along every path of fetch_next -> _fetch_next -> fetch_next_with_fallback the primary
-            stream is received exactly once; step.apply() never receives.
-  C06.TS    the emitted sample's timestamp derives from fetched samples' timestamps (never the wall
-            clock) and the formula steps are evaluated only after the round's timestamp (and, on the
-            first run, the synchronisation) has been established.
-  C06.SYNC  first-run synchronisation: latest = max of the first timestamps; every lagging group is
-            drained with `while ts < latest: for name in names: fetch_next()`; overshoot raises;
-            _first_run is cleared only after all groups completed.
+            stream is received exactly once; step.apply() never receives; apply() (and the private
+            helpers it calls) fetches nothing besides the round's tasks.
+  C06.TS    the timestamp of every Sample apply() can return derives from this round's fetched samples
+            (never the wall clock); nothing is fetched once step evaluation has begun; while
+            _first_run is set, evaluation / return is only reachable through the synchronisation.
+  C06.SYNC  first-run synchronisation: inputs grouped by first timestamp, latest = max of the groups,
+            returned; per group: `ts < latest` => every stream of the group is fetched (and ts
+            tracked) in each pass of a loop that runs exactly while ts < latest; `ts > latest`
+            afterwards never continues normally; _first_run is cleared only after all groups.
   C06.FSYNC the fallback synchronisation keeps per-timestamp alignment (shared with C19.SYNC).
   C06.3PH   the three-phase engine receives exactly one sample per phase per round and stamps the
             output with a received timestamp.
@@ -17,11 +25,14 @@
 from __future__ import annotations
 
 import ast
+from typing import Any, Callable
 
 from ..engine.cfg import CFG
+from ..engine.normalize import positional
 from ..engine.report import AnalysisError, Run
-from ..engine.resolver import Program, body_walk, contains_await
-from ..engine.util import canon, canon_total, find_calls, method_call, node_writes, nodes_with_call, u
+from ..engine.resolver import Program, contains_await
+from ..engine.util import find_calls, method_call, nodes_with_call, u
+from ._c06_util import Flow, Org, Tri, cmp_eval, lifted, pruned, result_sites, spliced, transitive_helpers, truth_atom, unawait
 from .c13 import step_classes
 from .c19 import check_sync as fallback_sync
 
@@ -30,47 +41,237 @@ STEPS = "timeseries.formula_engine._formula_steps"
 ENGINE = "timeseries.formula_engine._formula_engine"
 FE = f"{EVAL}:FormulaEvaluator"
 MF = f"{STEPS}:MetricFetcher"
+SYNC = "_synchronize_metric_timestamps"
+FETCH_ATTRS = ("fetch_next", "receive")
 
 
-def check_all(run: Run, prog: Program) -> None:
-    fn = prog.func(f"{FE}.apply")
+def _asyncio_name(fl: Flow, e: ast.AST, name: str) -> bool:
+    t = u(e)
+    if t == f"asyncio.{name}":
+        return True
+    return isinstance(e, ast.Name) and fl.fn.module.imports.get(e.id) == f"asyncio.{name}"
+
+
+def _is_fetch_call(c: ast.Call) -> bool:
+    return isinstance(c.func, ast.Attribute) and c.func.attr in FETCH_ATTRS
+
+
+def _is_sync_call(c: ast.Call) -> bool:
+    return isinstance(c.func, ast.Attribute) and c.func.attr == SYNC and u(c.func.value) == "self"
+
+
+class Round:
+    """Roles of FormulaEvaluator.apply: the awaited asyncio.wait, its done / pending sets, the step evaluation."""
+
+    def __init__(self, prog: Program) -> None:
+        self.prog = prog
+        self.raw = prog.func(f"{FE}.apply")
+        self.fn = spliced(prog, self.raw)
+        self.fl = fl = Flow(prog, self.fn)
+        waits = [(nid, c) for nid, c in fl.calls(lambda c: _asyncio_name(fl, c.func, "wait"))
+                 if isinstance(fl._parent.get(id(c)), ast.Await)]
+        if len(waits) != 1:
+            raise AnalysisError(f"{self.raw.qual}: expected one awaited asyncio.wait, found {len(waits)}")
+        self.wait_nid, self.wait = waits[0]
+        # step evaluation: the loop(s) over self._steps and the `.apply(...)` calls on their elements
+        self.step_loops = [n.id for n in fl.cfg.nodes if n.kind == "for" and n.id in fl.live
+                           and self._is_steps(n.ast.iter, n.id)]  # type: ignore[union-attr]
+        self.step_calls = [(nid, c) for nid, c in fl.calls(lambda c: isinstance(c.func, ast.Attribute) and c.func.attr == "apply")
+                           if any(o.kind == "iter" and self._is_steps(o.node, o.nid, strict=False) for o in fl.origin(c.func.value, nid))]  # type: ignore[union-attr]
+        self.eval_nodes = sorted(set(self.step_loops) | {nid for nid, _ in self.step_calls})
+        if not self.eval_nodes:
+            raise AnalysisError(f"{self.raw.qual}: evaluation of self._steps not found")
+
+    def _is_steps(self, e: ast.AST | None, nid: int | None, strict: bool = True) -> bool:
+        if e is None:
+            return False
+        if not strict:
+            e2 = unawait(e)
+            while isinstance(e2, ast.Call) and u(e2.func) in ("iter", "list", "tuple", "reversed", "enumerate") and e2.args:
+                e2 = e2.args[0]
+            e = e2
+        return all(o.kind == "expr" and u(o.node) == "self._steps" for o in self.fl.origin(e, nid))
+
+    # done / pending sets of the wait, wherever they are named (also inside helpers: origins cross calls)
+    def _is_item(self, flow: Flow, e: ast.AST, nid: int | None, idx: int) -> bool:
+        e2 = unawait(e)
+        while isinstance(e2, ast.Call) and u(e2.func) in ("iter", "list", "tuple", "set", "frozenset") and len(e2.args) == 1:
+            e2 = e2.args[0]
+        o = flow.origin(e2, nid)  # type: ignore[arg-type]
+        return bool(o) and all(x.kind == "item" and unawait(x.node) is self.wait and x.idx == idx for x in o)
+
+    def is_done(self, flow: Flow, e: ast.AST, nid: int | None) -> bool:
+        return self._is_item(flow, e, nid, 0)
+
+    def is_pending(self, flow: Flow, e: ast.AST, nid: int | None) -> bool:
+        return self._is_item(flow, e, nid, 1)
+
+    def is_task(self, flow: Flow, e: ast.AST, nid: int | None) -> bool:
+        """An element of the done set: loop / comprehension variable over it, or next(iter(done))."""
+        out = flow.origin(e, nid)
+        for o in out:
+            if o.kind == "iter" and o.idx is None and o.node is not None and self.is_done(o.flow, o.node, o.nid):
+                continue
+            c = o.call()
+            if c is not None and u(c.func) == "next" and c.args and self.is_done(o.flow, c.args[0], o.nid):
+                continue
+            return False
+        return bool(out)
+
+    def is_sample(self, flow: Flow, e: ast.AST, nid: int | None) -> bool:
+        """The result of one of this round's finished fetch tasks."""
+        out = flow.origin(e, nid)
+        for o in out:
+            c = o.call()
+            if c is not None and isinstance(c.func, ast.Attribute) and c.func.attr == "result" and not c.args \
+                    and self.is_task(o.flow, c.func.value, o.nid):
+                continue
+            return False
+        return bool(out)
+
+    def arrived_atom(self, assign: dict[str, Tri]) -> Callable[[ast.AST, int], Tri]:
+        """Atoms `pending` (non-empty) and `none` (some finished task delivered None)."""
+        fl = self.fl
+
+        def atom(e: ast.AST, nid: int) -> Tri:
+            if isinstance(e, ast.Call) and u(e.func) in ("any", "all") and len(e.args) == 1 \
+                    and isinstance(e.args[0], (ast.GeneratorExp, ast.ListComp, ast.SetComp)) \
+                    and len(e.args[0].generators) == 1 and not e.args[0].generators[0].ifs:
+                comp = e.args[0]
+                g = comp.generators[0]
+                if isinstance(g.target, ast.Name) and self.is_done(fl, g.iter, nid):
+                    neg = False
+                    elt = comp.elt
+                    while isinstance(elt, ast.UnaryOp) and isinstance(elt.op, ast.Not):
+                        neg, elt = not neg, elt.operand
+                    ta = truth_atom(elt)
+                    if ta is not None:
+                        x, is_none = ta
+                        is_none = is_none != neg
+                        c = unawait(x)
+                        if isinstance(c, ast.Call) and isinstance(c.func, ast.Attribute) and c.func.attr == "result" \
+                                and isinstance(c.func.value, ast.Name) and c.func.value.id == g.target.id:
+                            v = assign.get("none")
+                            if u(e.func) == "any" and is_none:
+                                return v
+                            if u(e.func) == "all" and not is_none:
+                                return None if v is None else (not v)
+                return None
+            if self.is_pending(fl, e, nid):
+                return assign.get("pending")
+            if isinstance(e, ast.Compare) and len(e.ops) == 1:
+                a, b = e.left, e.comparators[0]
+                for x, y, flip in ((a, b, False), (b, a, True)):
+                    if isinstance(x, ast.Call) and u(x.func) == "len" and len(x.args) == 1 and self.is_pending(fl, x.args[0], nid) \
+                            and isinstance(y, ast.Constant) and isinstance(y.value, int) and assign.get("pending") is not None:
+                        lens = (1, 2, 7) if assign["pending"] else (0,)
+                        vals = {cmp_eval(e.ops[0], y.value, n) if flip else cmp_eval(e.ops[0], n, y.value) for n in lens}
+                        return vals.pop() if len(vals) == 1 else None
+            return None
+
+        return atom
+
+    def first_run_atom(self, flow: Flow, value: bool) -> Callable[[ast.AST, int], Tri]:
+        def atom(e: ast.AST, nid: int) -> Tri:
+            if isinstance(e, (ast.Name, ast.Attribute)):
+                o = flow.origin(e, nid, through_helpers=False)
+                if o and all(x.kind == "expr" and u(x.node) == "self._first_run" for x in o):
+                    return value
+            if isinstance(e, ast.Compare) and len(e.ops) == 1 and isinstance(e.comparators[0], ast.Constant) \
+                    and isinstance(e.comparators[0].value, bool) and isinstance(e.ops[0], (ast.Is, ast.IsNot, ast.Eq, ast.NotEq)):
+                inner = atom(e.left, nid)
+                if inner is not None:
+                    same = inner == e.comparators[0].value
+                    return same if isinstance(e.ops[0], (ast.Is, ast.Eq)) else not same
+            return None
+
+        return atom
+
+    # nodes of `flow` that synchronise whenever _first_run is set (the anchored call, or a helper that must reach it)
+    def sync_nodes(self, flow: Flow, _depth: int = 0) -> list[int]:
+        out = []
+        for nid, c in flow.calls(lambda c: True):
+            if _is_sync_call(c) and isinstance(flow._parent.get(id(c)), ast.Await):
+                out.append(nid)
+            elif _depth < 3:
+                ch = flow.child(c, nid)
+                if ch is not None and isinstance(flow._parent.get(id(c)), ast.Await) == ch.fn.is_async:
+                    inner = self.sync_nodes(ch, _depth + 1)
+                    if inner and ch.cfg.path(ch.cfg.entry, [ch.cfg.exit], avoid=inner,
+                                             edge_ok=pruned(ch.cfg, lifted(ch, self.first_run_atom(ch, True)), normal_only=False)) is None:
+                        out.append(nid)
+        return sorted(set(out))
+
+    def fetching_nodes(self, flow: Flow) -> list[int]:
+        """Nodes that (may) read input streams: fetch_next / receive / the synchronisation / asyncio.wait, also via helpers."""
+        def fetches(c: ast.Call) -> bool:
+            if _is_fetch_call(c) or _is_sync_call(c) or _asyncio_name(flow, c.func, "wait"):
+                return True
+            t = flow.callee(c)
+            if t is not None:
+                hs = [t] + transitive_helpers(Flow(flow.prog, t))
+                return any(_is_fetch_call(x) or _is_sync_call(x) for h in hs for x in ast.walk(h.node) if isinstance(x, ast.Call))
+            return False
+        return flow.nodes_calling(fetches)
+
+
+def check_all(run: Run, prog: Program, rnd: Round) -> None:
+    fn, fl, cfg = rnd.raw, rnd.fl, rnd.fl.cfg
     run.analysed(fn.qual)
-    cfg = CFG(fn.node, fn.file)
-    waits = [x for x in nodes_with_call(cfg, lambda c: u(c.func) == "asyncio.wait") if cfg.is_await(x)]
-    if len(waits) != 1:
-        raise AnalysisError(f"{fn.qual}: expected one awaited asyncio.wait")
-    w = find_calls(cfg.nodes[waits[0]].ast, lambda c: u(c.func) == "asyncio.wait")[0]  # type: ignore[arg-type]
-    comp = w.args[0] if w.args else None
-    ok = isinstance(comp, (ast.ListComp, ast.SetComp, ast.GeneratorExp)) and len(comp.generators) == 1
+    w = rnd.wait
+    wargs = positional(w, ["fs"])
+    fs = wargs.get("fs")
+    comp = None
+    if fs is not None:
+        o = fl.origin1(fs, rnd.wait_nid)
+        if o is not None and o.kind == "expr" and isinstance(o.node, (ast.ListComp, ast.SetComp, ast.GeneratorExp)):
+            comp = o.node
+    ok = comp is not None and len(comp.generators) == 1
     if ok:
+        assert comp is not None
         g = comp.generators[0]
-        ok = not g.ifs and u(g.iter) in ("self._metric_fetchers.items()", "self._metric_fetchers.values()")
-        ft = u(g.target.elts[1]) if isinstance(g.target, ast.Tuple) else u(g.target)
-        inner = find_calls(comp.elt, lambda c: method_call(c, ft, "fetch_next"))
-        ok = ok and len(inner) == 1 and bool(find_calls(comp.elt, lambda c: u(c.func).endswith("create_task")))
+        it = u(g.iter)
+        ok = not g.ifs and not g.is_async and it in ("self._metric_fetchers.items()", "self._metric_fetchers.values()",
+                                                    "self._metric_fetchers.keys()", "self._metric_fetchers")
+        bases = set()
+        if it.endswith(".items()") and isinstance(g.target, ast.Tuple) and len(g.target.elts) == 2:
+            bases = {u(g.target.elts[1]), f"self._metric_fetchers[{u(g.target.elts[0])}]"}
+        elif it.endswith(".values()") and isinstance(g.target, ast.Name):
+            bases = {g.target.id}
+        elif isinstance(g.target, ast.Name):
+            bases = {f"self._metric_fetchers[{g.target.id}]"}
+        inner = [c for c in ast.walk(comp.elt) if isinstance(c, ast.Call) and _is_fetch_call(c)]
+        tasks = [c for c in ast.walk(comp.elt) if isinstance(c, ast.Call) and u(c.func).endswith("create_task")]
+        ok = ok and len(inner) == 1 and inner[0].func.attr == "fetch_next" and u(inner[0].func.value) in bases \
+            and len(tasks) == 1 and bool(tasks[0].args) and tasks[0].args[0] is inner[0]  # type: ignore[attr-defined]
     run.check(ok, "C06.ALL", fn.qual, "one fetch_next() task per metric fetcher, no filter",
               "not every input of the formula is fetched in every round", node=w, file=fn.file)
-    kws = {k.arg: u(k.value) for k in w.keywords}
-    run.check(kws.get("return_when", "asyncio.ALL_COMPLETED") == "asyncio.ALL_COMPLETED" and "timeout" not in kws,
+    kws = {k.arg: k.value for k in w.keywords}
+    rw = kws.get("return_when")
+    run.check((rw is None or _asyncio_name(fl, rw, "ALL_COMPLETED")) and "timeout" not in kws and len(w.args) <= 1
+              and None not in kws,
               "C06.ALL", fn.qual, "return_when=ALL_COMPLETED, no timeout",
               "the round does not wait for all inputs (a sample could be computed from a partial set of "
               "inputs while the rest is consumed by a later round)", node=w, file=fn.file)
-    # pending / None -> raise before evaluation
-    s = cfg.nodes[waits[0]].ast
-    ready, pend = (u(e) for e in s.targets[0].elts) if isinstance(s, ast.Assign) else ("?", "?")  # type: ignore[union-attr]
-    tests = [t for t in cfg.nodes if t.kind == "test" and t.ast is not None and pend in t.label and "result() is None" in t.label]
-    steps_loop = [h for h in cfg.nodes if h.kind == "for" and u(h.ast.iter) == "self._steps"]  # type: ignore[union-attr]
-    ok = len(tests) == 1 and len(steps_loop) == 1
-    if ok:
-        t = tests[0]
-        t_true = cfg.reachable([m for m, lab in cfg.succ[t.id] if lab == "true"])
-        ok = cfg.exit not in t_true and steps_loop[0].id not in t_true and \
-            cfg.path(cfg.entry, [steps_loop[0].id], avoid=[t.id]) is None
-    run.check(ok, "C06.ALL", fn.qual, "pending or closed inputs abort the round",
-              "the formula is evaluated although some input did not deliver a sample", node=fn.node, file=fn.file)
+    # pending / None -> no evaluation, no normal return
+    start = [m for m, lab in cfg.succ[rnd.wait_nid] if not lab.startswith("exc:")]
+    goals = rnd.eval_nodes + [cfg.exit]
+    wit = None
+    for assign in ({"pending": True, "none": None}, {"pending": False, "none": True}):
+        ok_edge = pruned(cfg, lifted(fl, rnd.arrived_atom(assign)))
+        for s in start:
+            wit = wit or cfg.path(s, goals, edge_ok=ok_edge)
+    sane = any(cfg.path(s, rnd.eval_nodes, edge_ok=pruned(cfg, lifted(fl, rnd.arrived_atom({"pending": False, "none": False})))) is not None
+               for s in start)
+    # ... and nothing is evaluated / returned without having awaited the round's tasks at all
+    skip = cfg.path(cfg.entry, goals, avoid=[rnd.wait_nid])
+    run.check(wit is None and sane and skip is None, "C06.ALL", fn.qual, "pending or closed inputs abort the round",
+              "the formula is evaluated although some input did not deliver a sample", node=fn.node, file=fn.file,
+              path=cfg.describe_path(wit or skip))
     # only other fetches: the first-run synchronisation
-    others = [c for c in find_calls(fn.node, lambda c: isinstance(c.func, ast.Attribute) and c.func.attr in ("fetch_next", "receive"))
-              if not any(c is x for x in ast.walk(comp))]  # type: ignore[arg-type]
+    others = [c for _nid, c in fl.calls(_is_fetch_call) if comp is None or not any(c is x for x in ast.walk(comp))]
+    for h in transitive_helpers(fl):
+        others += [c for c in ast.walk(h.node) if isinstance(c, ast.Call) and _is_fetch_call(c)]
     run.check(not others, "C06.ONE", fn.qual, "no extra fetch in a steady-state round",
               "apply() fetches an input a second time within one round", node=fn.node, file=fn.file)
 
@@ -109,15 +310,16 @@ def check_one(run: Run, prog: Program) -> None:
               "per round on the fallback-aware path", node=fw.node, file=fw.file, path=cfg2.describe_path(wit or twice))
     fn3 = prog.func(f"{MF}.fetch_next")
     run.analysed(fn3.qual)
-    calls = find_calls(fn3.node, lambda c: method_call(c, "self", "_fetch_next"))
-    run.check(len(calls) == 1 and not find_calls(fn3.node, lambda c: isinstance(c.func, ast.Attribute)
-                                                and c.func.attr == "receive"), "C06.ONE", fn3.qual,
-              "fetch_next -> one _fetch_next", "fetch_next does not perform exactly one fetch", node=fn3.node, file=fn3.file)
+    cfg3 = CFG(fn3.node, fn3.file)
+    calls = nodes_with_call(cfg3, lambda c: method_call(c, "self", "_fetch_next"))
+    wit = cfg3.path(cfg3.entry, [cfg3.exit], avoid=calls, edge_ok=normal)
+    twice = cfg3.path(calls[0], calls, include_src=False) if calls else None
+    run.check(len(calls) == 1 and wit is None and twice is None and not find_calls(
+        fn3.node, lambda c: isinstance(c.func, ast.Attribute) and c.func.attr == "receive"), "C06.ONE", fn3.qual,
+        "fetch_next -> one _fetch_next", "fetch_next does not perform exactly one fetch", node=fn3.node, file=fn3.file)
     # steps never receive
-    n = 0
     for cls in step_classes(prog):
         m = cls.methods["apply"]
-        n += 1
         bad = m.is_async or contains_await(m.node) or find_calls(
             m.node, lambda c: isinstance(c.func, ast.Attribute) and c.func.attr in ("receive", "fetch_next", "consume"))
         run.check(not bad, "C06.ONE", m.qual, f"{cls.name}.apply is synchronous and reads no stream",
@@ -129,158 +331,396 @@ def check_one(run: Run, prog: Program) -> None:
               "MetricFetcher.apply does not push the sample stored by fetch_next", node=ap.node, file=ap.file)
 
 
-def check_ts(run: Run, prog: Program) -> None:
-    fn = prog.func(f"{FE}.apply")
-    cfg = CFG(fn.node, fn.file)
-    rets = [n for n in cfg.nodes if isinstance(n.ast, ast.Return) and isinstance(n.ast.value, ast.Call)
-            and u(n.ast.value.func) == "Sample"]
-    if len(rets) < 2:
+def _is_sample_ctor(c: ast.Call) -> bool:
+    return u(c.func) in ("Sample", "Sample[QuantityT]")
+
+
+def check_ts(run: Run, prog: Program, rnd: Round) -> None:
+    fn, fl, cfg = rnd.raw, rnd.fl, rnd.fl.cfg
+    sites = result_sites(fl, _is_sample_ctor)
+    if not sites:
         raise AnalysisError(f"{fn.qual}: Sample returns not found")
-    ts_names = {u(r.ast.value.args[0]) for r in rets}  # type: ignore[union-attr]
-    ok = len(ts_names) == 1
-    ts = next(iter(ts_names))
-    defs = [n for n in cfg.nodes if n.kind == "stmt" and any(u(w) == ts for w in node_writes(cfg, n.id))]
-    good = 0
-    for d in defs:
-        v = d.ast.value if isinstance(d.ast, ast.Assign) else None  # type: ignore[union-attr]
-        t = u(v) if v is not None else ""
-        if t.replace(" ", "") == "awaitself._synchronize_metric_timestamps(ready_metrics)":
-            good += 1
-        elif t.endswith(".timestamp"):
-            base = t[: -len(".timestamp")]
-            bdefs = [u(x.ast.value) for x in cfg.nodes if isinstance(x.ast, ast.Assign) and u(x.ast.targets[0]) == base]
-            if bdefs and all("ready_metrics" in b and b.endswith(".result()") for b in bdefs):
-                good += 1
-    ok = ok and good == len(defs) and len(defs) == 2
-    nowcalls = find_calls(fn.node, lambda c: "now" in u(c.func) or "time()" in u(c))
-    run.check(ok and not nowcalls, "C06.TS", fn.qual, f"{ts} <- fetched sample timestamps only",
-              "the emitted timestamp is not derived from the timestamps of this round's fetched samples",
-              node=fn.node, file=fn.file)
-    # steps evaluated only after the timestamp / synchronisation
-    loops = [h for h in cfg.nodes if h.kind == "for" and u(h.ast.iter) == "self._steps"]  # type: ignore[union-attr]
-    wit = cfg.path(cfg.entry, [loops[0].id], avoid=[d.id for d in defs]) if loops else [(0, "")]
-    run.check(bool(loops) and wit is None, "C06.TS", fn.qual, "evaluate after the round's timestamp is fixed",
+    sync_fn = prog.func(f"{FE}.{SYNC}")
+    sync_params = [p for p in sync_fn.params if p != "self"]
+
+    def ts_leaf_ok(o: Org) -> bool:
+        if o.kind != "expr" or o.node is None:
+            return False
+        e = o.node
+        if isinstance(e, ast.Await) and isinstance(e.value, ast.Call) and _is_sync_call(e.value):
+            arg = positional(e.value, sync_params).get(sync_params[0]) if sync_params else None
+            return arg is not None and rnd.is_done(o.flow, arg, o.nid)
+        if isinstance(e, ast.Attribute) and e.attr == "timestamp":
+            return rnd.is_sample(o.flow, e.value, o.nid)
+        return False
+
+    bad: list[str] = []
+    for s in sites:
+        ts = s.args(["timestamp", "value"]).get("timestamp")
+        if ts is None:
+            bad.append(f"{u(s.call)}: no timestamp argument")
+            continue
+        leaves = s.flow.origin(ts, s.nid)
+        bad += [f"{u(s.call)}: timestamp <- {o.text()}" for o in leaves if not ts_leaf_ok(o)]
+        if not leaves:
+            bad.append(f"{u(s.call)}: timestamp of unknown origin")
+    scope = [fn.node] + [h.node for h in transitive_helpers(fl)]
+    nowcalls = [c for nd in scope for c in find_calls(nd, lambda c: "now" in u(c.func) or "time()" in u(c))]
+    run.check(not bad and not nowcalls, "C06.TS", fn.qual, "emitted timestamp <- fetched sample timestamps only",
+              "the emitted timestamp is not derived from the timestamps of this round's fetched samples"
+              + (f" ({'; '.join(bad[:3])})" if bad else ""), node=fn.node, file=fn.file)
+    # nothing is fetched once step evaluation has begun
+    fetching = rnd.fetching_nodes(fl)
+    wit = None
+    for e in rnd.eval_nodes:
+        wit = wit or cfg.path(e, fetching, include_src=False)
+    run.check(wit is None, "C06.TS", fn.qual, "evaluate after the round's timestamp is fixed",
               "the formula steps are evaluated before the first-run synchronisation / timestamp selection: "
               "the first sample is stamped with the synchronised timestamp but computed from the lagging "
               "streams' older samples", node=fn.node, file=fn.file, path=cfg.describe_path(wit))
     # first-run switch
-    tests = [t for t in cfg.nodes if t.kind == "test" and t.ast is not None and canon(t.ast) == ("truthy", "self._first_run")]
-    ok = len(tests) == 1
-    if ok:
-        t = tests[0]
-        sync = nodes_with_call(cfg, lambda c: method_call(c, "self", "_synchronize_metric_timestamps"))
-        ok = [m for m, lab in cfg.succ[t.id] if lab == "true"] == sync[:1]
-    run.check(ok, "C06.TS", fn.qual, "first run -> synchronise", "the first round does not synchronise the inputs",
-              node=fn.node, file=fn.file)
-    # evaluator state: _first_run written only in __init__ (True) and at the end of the sync (False)
+    syncs = rnd.sync_nodes(fl)
+    wit = cfg.path(cfg.entry, rnd.eval_nodes + [cfg.exit], avoid=syncs,
+                   edge_ok=pruned(cfg, lifted(fl, rnd.first_run_atom(fl, True)), normal_only=False))
+    run.check(bool(syncs) and wit is None, "C06.TS", fn.qual, "first run -> synchronise",
+              "the first round does not synchronise the inputs", node=fn.node, file=fn.file, path=cfg.describe_path(wit))
+    # evaluator state: _first_run written only in __init__ (True) and by the synchronisation (False)
     cls = prog.cls(FE)
     writes = []
     for m in cls.methods.values():
-        for s in body_walk(m.node):
-            if isinstance(s, ast.Assign) and u(s.targets[0]) == "self._first_run":
-                writes.append((m.name, u(s.value)))
-    run.check(sorted(writes) == [("__init__", "True"), ("_synchronize_metric_timestamps", "False")], "C06.TS",
-              cls.qual, f"writers of _first_run: {sorted(writes)}",
-              "the first-run flag is toggled elsewhere", node=cls.node, file=cls.module.rel)
+        for s in ast.walk(m.node):
+            tgts: list[ast.AST] = []
+            val: ast.AST | None = None
+            if isinstance(s, ast.Assign):
+                tgts, val = [x for t in s.targets for x in ast.walk(t)], s.value
+            elif isinstance(s, (ast.AnnAssign, ast.AugAssign)):
+                tgts, val = list(ast.walk(s.target)), (s.value if isinstance(s, ast.AnnAssign) else None)
+            elif isinstance(s, ast.NamedExpr):
+                continue
+            elif isinstance(s, ast.Delete):
+                tgts = [x for t in s.targets for x in ast.walk(t)]
+            elif isinstance(s, ast.Call) and u(s.func) in ("setattr", "delattr") and len(s.args) >= 2 and "_first_run" in u(s.args[1]):
+                writes.append((m.name, "?"))
+            if any(isinstance(t, ast.Attribute) and t.attr == "_first_run" for t in tgts):
+                if isinstance(s, ast.AnnAssign) and s.value is None:
+                    continue  # bare annotation, no write
+                # a non-anchored private helper only used by the synchronisation counts as part of it
+                where = m.name
+                if where not in ("__init__", SYNC) and where.startswith("_") and not where.startswith("__"):
+                    users = {c.name for c in cls.methods.values() if c is not m and find_calls(
+                        c.node, lambda k, _n=where: method_call(k, "self", _n))}
+                    if users == {SYNC}:
+                        where = SYNC
+                writes.append((where, u(val) if val is not None and not isinstance(s, ast.AugAssign) else "?"))
+    run.check(sorted(writes) == [("__init__", "True"), (SYNC, "False")], "C06.TS",
+              cls.qual, "writers of _first_run: __init__ (True), synchronisation (False)",
+              f"the first-run flag is toggled elsewhere: {sorted(writes)}", node=cls.node, file=cls.module.rel)
 
 
+# ---------------------------------------------------------------------------------------------
 def check_sync(run: Run, prog: Program) -> None:
-    fn = prog.func(f"{FE}._synchronize_metric_timestamps")
-    run.analysed(fn.qual)
-    cfg = CFG(fn.node, fn.file)
-    txt = u(fn.node).replace(" ", "")
-    ok = "metrics_by_ts.setdefault(result.timestamp,[]).append(name)" in txt and "latest_ts=max(metrics_by_ts)" in txt
-    run.check(ok, "C06.SYNC", fn.qual, "group by first timestamp; latest = max",
-              "inputs are not grouped by their first timestamp with the latest one as the target",
-              node=fn.node, file=fn.file)
-    outer = [s for s in fn.node.body if isinstance(s, ast.For) and u(s.iter) == "metrics_by_ts.items()"]
-    ok = len(outer) == 1
-    detail = "no loop over the timestamp groups"
+    raw = prog.func(f"{FE}.{SYNC}")
+    run.analysed(raw.qual)
+    fn = spliced(prog, raw)
+    fl = Flow(prog, fn)
+    cfg = fl.cfg
+    params = [p for p in fl.params if p != "self"]
+    if not params:
+        raise AnalysisError(f"{raw.qual}: no parameter carrying the finished fetch tasks")
+    tasks_param = params[0]
+    normal = lambda a, b, lab: not lab.startswith("exc:")  # noqa: E731
+
+    def strip_iter(e: ast.AST) -> ast.AST:
+        while isinstance(e, ast.Call) and u(e.func) in ("iter", "list", "tuple", "set", "sorted") and len(e.args) == 1:
+            e = e.args[0]
+        return e
+
+    def is_task(e: ast.AST, nid: int) -> tuple[bool, int | None]:
+        """Loop variable over the tasks parameter; returns the loop's node too."""
+        loops = set()
+        out = fl.origin(e, nid)
+        for o in out:
+            if o.kind != "iter" or o.idx is not None or o.node is None:
+                return False, None
+            src = fl.origin(strip_iter(o.node), o.nid)
+            if not src or not all(s.kind == "param" and s.name == tasks_param for s in src):
+                return False, None
+            loops.add(o.nid)
+        return (len(loops) == 1), (next(iter(loops)) if len(loops) == 1 else None)
+
+    def task_call(e: ast.AST, nid: int, attr: str) -> tuple[bool, int | None]:
+        out = fl.origin(e, nid)
+        loop = None
+        for o in out:
+            c = o.call()
+            if c is None or not isinstance(c.func, ast.Attribute) or c.func.attr != attr or c.args or c.keywords:
+                return False, None
+            ok, lp = is_task(c.func.value, o.nid)  # type: ignore[arg-type]
+            if not ok or (loop is not None and lp != loop):
+                return False, None
+            loop = lp
+        return bool(out), loop
+
+    def is_empty(e: ast.AST, kinds: tuple[str, ...]) -> bool:
+        if isinstance(e, ast.Dict) and "dict" in kinds:
+            return not e.keys
+        if isinstance(e, ast.List) and "list" in kinds:
+            return not e.elts
+        return isinstance(e, ast.Call) and u(e.func) in kinds and not e.args and not e.keywords
+
+    # ---- S1: grouping by first timestamp
+    groups: list[tuple[int, ast.AST, int]] = []  # (insertion node, dict-creating expression, loop node)
+    for nid, c in fl.calls(lambda c: isinstance(c.func, ast.Attribute) and c.func.attr == "append" and len(c.args) == 1):
+        tgt = c.func.value  # type: ignore[union-attr]
+        key = holder = None
+        if isinstance(tgt, ast.Call) and isinstance(tgt.func, ast.Attribute) and tgt.func.attr == "setdefault" \
+                and len(tgt.args) == 2 and is_empty(tgt.args[1], ("list",)):
+            key, holder = tgt.args[0], tgt.func.value
+        if key is None or holder is None:
+            continue
+        ko = fl.origin(key, nid)
+        if not ko or not all(o.kind == "expr" and isinstance(o.node, ast.Attribute) and o.node.attr == "timestamp" for o in ko):
+            continue
+        lp = None
+        good = True
+        for o in ko:
+            ok, l1 = task_call(o.node.value, o.nid, "result")  # type: ignore[union-attr,arg-type]
+            good = good and ok and (lp is None or lp == l1)
+            lp = l1
+        okn, l2 = task_call(c.args[0], nid, "get_name")
+        ho = fl.origin1(holder, nid)
+        if good and okn and l2 == lp and lp is not None and ho is not None and ho.kind == "expr" and ho.node is not None \
+                and is_empty(ho.node, ("dict",)):
+            groups.append((nid, ho.node, lp))
+    ok = len(groups) == 1
+    G: ast.AST | None = None
+    latest_calls: list[ast.Call] = []
+
+    def is_G(e: ast.AST, nid: int | None) -> bool:
+        if isinstance(e, ast.Call) and isinstance(e.func, ast.Attribute) and e.func.attr == "keys" and not e.args:
+            e = e.func.value
+        o = fl.origin(e, nid)
+        return G is not None and bool(o) and all(x.kind == "expr" and x.node is G for x in o)
+
     if ok:
-        o = outer[0]
-        ts_var, names_var = (u(e) for e in o.target.elts)  # type: ignore[union-attr]
-        whiles = [s for s in o.body if isinstance(s, ast.While)]
-        ok = len(whiles) == 1 and canon_total(whiles[0].test) == ("<", ts_var, "latest_ts")
-        detail = f"groups are not drained with `while {ts_var} < latest_ts`"
+        ins, G, lp = groups[0]
+        first = [m for m, lab in cfg.succ[lp] if lab == "iter"]
+        # every task is grouped: no normal way round the loop body that skips the insertion
+        ok = bool(first) and first[0] != lp and (first[0] == ins or cfg.path(first[0], [lp], avoid=[ins], edge_ok=normal) is None) \
+            and not any(isinstance(x, (ast.Break, ast.Return)) for st in cfg.nodes[lp].ast.body for x in ast.walk(st))  # type: ignore[union-attr]
+        latest_calls = [c for nid, c in fl.calls(lambda c: u(c.func) == "max" and len(c.args) == 1 and not c.keywords)
+                        if is_G(c.args[0], nid)]
+        # the grouping is complete before the latest timestamp is taken
+        ok = ok and bool(latest_calls) and all(
+            cfg.path(fl.node_of(c), [ins], include_src=False) is None for c in latest_calls)
+    run.check(ok, "C06.SYNC", raw.qual, "group by first timestamp; latest = max",
+              "inputs are not grouped by their first timestamp with the latest one as the target",
+              node=raw.node, file=raw.file)
+
+    def is_latest(e: ast.AST, nid: int | None) -> bool:
+        o = fl.origin(e, nid)
+        return bool(o) and all(x.kind == "expr" and any(unawait(x.node) is c for c in latest_calls) for x in o)
+
+    # ---- S2: per group, drain while ts < latest
+    outer = [n for n in cfg.nodes if n.kind == "for" and n.id in fl.live and isinstance(n.ast.iter, ast.Call)  # type: ignore[union-attr]
+             and isinstance(n.ast.iter.func, ast.Attribute) and n.ast.iter.func.attr == "items"  # type: ignore[union-attr]
+             and is_G(n.ast.iter.func.value, n.id)  # type: ignore[union-attr]
+             and isinstance(n.ast.target, ast.Tuple) and len(n.ast.target.elts) == 2]  # type: ignore[union-attr]
+    ok = bool(latest_calls) and len(outer) == 1
+    detail = "no loop over the timestamp groups"
+    o_id = outer[0].id if ok else -1
+    if ok:
+        o_iter = outer[0].ast.iter  # type: ignore[union-attr]
+        body0 = [m for m, lab in cfg.succ[o_id] if lab == "iter"]
+        region_o = cfg.reachable(body0, avoid=[o_id], edge_ok=normal)
+        fetched: list[ast.AST] = []  # awaited fetch_next() calls of the drain pass (filled below)
+
+        def group_ts(o: Org) -> bool:
+            return o.kind == "iter" and o.idx == 0 and o.node is o_iter
+
+        def cur_ts(o: Org) -> bool:
+            return group_ts(o) or (o.kind == "expr" and isinstance(o.node, ast.Attribute) and o.node.attr == "timestamp"
+                                   and fl.is_node_any(o.node.value, fetched, o.nid))
+
+        def rel_atom(rel: str) -> Callable[[ast.AST, int], Tri]:
+            val = {"lt": -1, "eq": 0, "gt": 1}[rel]
+
+            def atom(e: ast.AST, nid: int) -> Tri:
+                if not (isinstance(e, ast.Compare) and len(e.ops) == 1):
+                    return None
+                a, b = e.left, e.comparators[0]
+                for x, y, flip in ((a, b, False), (b, a, True)):
+                    if is_latest(y, nid):
+                        xo = fl.origin(x, nid)
+                        if xo and all(cur_ts(q) for q in xo):
+                            return cmp_eval(e.ops[0], 0, val) if flip else cmp_eval(e.ops[0], val, 0)
+                return None
+
+            return atom
+
+        whiles = [n for n in cfg.nodes if n.kind == "while" and n.id in region_o
+                  and any(is_latest(x, n.id) for x in ast.walk(n.ast.test))]  # type: ignore[union-attr]
+        ok = len(whiles) == 1
+        detail = "the groups are not drained by one loop running while their timestamp is behind the latest"
         if ok:
             w = whiles[0]
-            inner = [s for s in w.body if isinstance(s, ast.For) and u(s.iter) == names_var]
-            ok = len(inner) == 1 and len(w.body) == 1
+            wtrue = [m for m, lab in cfg.succ[w.id] if lab == "true"]
+            wfalse = [m for m, lab in cfg.succ[w.id] if lab == "false"]
+            region_w = cfg.reachable(wtrue, avoid=[w.id], edge_ok=normal)
+            inner = [n for n in cfg.nodes if n.kind == "for" and n.id in region_w
+                     and all(q.kind == "iter" and q.idx == 1 and q.node is o_iter for q in fl.origin(n.ast.iter, n.id))]  # type: ignore[union-attr]
+            ok = len(inner) == 1 and not ({o_id, cfg.exit} & region_w) and \
+                (wtrue[0] == inner[0].id or cfg.path(wtrue[0], [w.id], avoid=[inner[0].id], edge_ok=normal) is None)
             detail = ("the drain loop does not advance *every* stream of the lagging group in each pass "
                       "(`while ts < latest: for name in names: fetch_next()`): with the loops interchanged "
                       "the shared timestamp variable stops the draining after the first stream and the "
                       "others stay behind forever")
             if ok:
-                body = u(inner[0]).replace(" ", "")
-                ok = "fetcher=self._metric_fetchers[" in body and "awaitfetcher.fetch_next()" in body and \
-                    f"{ts_var}=next_val.timestamp" in body
+                f = inner[0]
+                fbody = [m for m, lab in cfg.succ[f.id] if lab == "iter"]
+                region_f = cfg.reachable(fbody, avoid=[f.id], edge_ok=normal)
+                name_var = f.ast.target  # type: ignore[union-attr]
+                fetch_sites = []
+                for nid, c in fl.calls(lambda c: method_call(c, None, "fetch_next")):
+                    if nid not in region_f:
+                        continue
+                    src = fl.origin1(c.func.value, nid)  # type: ignore[union-attr]
+                    good = src is not None and src.kind == "expr" and isinstance(src.node, ast.Subscript) \
+                        and u(src.node.value) == "self._metric_fetchers" and isinstance(name_var, ast.Name) \
+                        and all(q.kind == "iter" and q.nid == f.id for q in fl.origin(src.node.slice, src.nid)) \
+                        and isinstance(fl._parent.get(id(c)), ast.Await)
+                    fetch_sites.append((nid, c, good))
+                # every name of the group is visited in each pass: the pass is only left when exhausted
+                closed = not any(isinstance(x, (ast.Break, ast.Return)) for st in w.ast.body for x in ast.walk(st))  # type: ignore[union-attr]
+                ok = len(fetch_sites) == 1 and fetch_sites[0][2] and closed
                 detail = "the drain pass does not fetch from the group's fetchers and track their timestamp"
-        if ok:
-            after = o.body[o.body.index(whiles[0]) + 1:]
-            ok = any(isinstance(s, ast.If) and canon_total(s.test) == ("<", "latest_ts", ts_var)
-                     and any(isinstance(x, ast.Raise) for x in s.body) for s in after)
-            detail = "overshooting the target timestamp is not an error"
-        if ok:
-            skips = [s for s in o.body if isinstance(s, ast.If) and canon(s.test) == ("==", frozenset({ts_var, "latest_ts"}))]
-            ok = all(any(isinstance(x, ast.Continue) for x in s.body) for s in skips)
-    run.check(ok, "C06.SYNC", fn.qual, "while ts < latest: for name in names: fetch_next()", detail,
-              node=fn.node, file=fn.file)
-    # _first_run cleared only after the group loop completed normally
-    clr = [n.id for n in cfg.nodes if isinstance(n.ast, ast.Assign) and u(n.ast.targets[0]) == "self._first_run"]
-    loops = [h for h in cfg.nodes if h.kind == "for" and u(h.ast.iter) == "metrics_by_ts.items()"]  # type: ignore[union-attr]
-    ok = len(clr) == 1 and len(loops) == 1
+                if ok:
+                    f_nid, f_call, _ = fetch_sites[0]
+                    fetched.append(f_call)
+                    # the variable compared in the loop test follows the group's timestamp, then the fetched sample's
+                    ts_names = {x.id for x in ast.walk(w.ast.test) if isinstance(x, ast.Name)  # type: ignore[union-attr]
+                                and not is_latest(x, w.id) and any(cur_ts(q) for q in fl.origin(x, w.id))}
+                    ok = len(ts_names) == 1
+                    if ok:
+                        tsv = next(iter(ts_names))
+
+                        def writes_ts(n: int) -> bool:
+                            return any(isinstance(t, ast.Name) and t.id == tsv for t in fl._writes(n))
+
+                        w_or = fl.origin(ast.Name(id=tsv, ctx=ast.Load()), w.id)
+                        upd = [n for n in region_w if writes_ts(n)]
+                        outside = [n for n in region_o - region_w - {w.id} if writes_ts(n)]
+                        # at the loop test the variable holds the group's timestamp or the last fetched one;
+                        # one unconditional update per fetched sample; outside the loop only (re)set to the group's
+                        ok = all(cur_ts(q) for q in w_or) and any(group_ts(q) for q in w_or) and len(upd) == 1 \
+                            and upd[0] in region_f and cfg.path(f_nid, [upd[0]], edge_ok=normal) is not None \
+                            and cfg.path(fbody[0], [f.id], avoid=[upd[0]], edge_ok=normal) is None \
+                            and (fbody[0] == f_nid or cfg.path(fbody[0], [f.id], avoid=[f_nid], edge_ok=normal) is None) \
+                            and not any(n in cfg.reachable(wfalse, avoid=[o_id], edge_ok=normal) for n in outside)
+                        # a fresh value for every group: the loop target itself, or a copy made on every way to the loop
+                        tgt0 = outer[0].ast.target.elts[0]  # type: ignore[union-attr]
+                        if ok and not (isinstance(tgt0, ast.Name) and tgt0.id == tsv):
+                            ok = bool(outside) and (body0[0] in outside or (
+                                body0[0] != w.id and cfg.path(body0[0], [w.id], avoid=outside, edge_ok=normal) is None))
+                if ok:
+                    # the loop runs exactly while ts < latest
+                    vals = [pruned(cfg, lifted(fl, rel_atom(r))) for r in ("lt", "eq", "gt")]
+                    t_ok = [(e(w.id, wtrue[0], "true"), e(w.id, wtrue[0], "false")) for e in vals]
+                    ok = t_ok == [(True, False), (False, True), (False, True)]
+                    detail = "groups are not drained exactly while their timestamp is before the latest one (`while ts < latest`)"
+                if ok:
+                    # a lagging group always enters the drain pass; an aligned one never does
+                    lt = pruned(cfg, lifted(fl, rel_atom("lt")))
+                    eq = pruned(cfg, lifted(fl, rel_atom("eq")))
+                    ok = cfg.path(body0[0], [o_id, cfg.exit], avoid=[f.id], edge_ok=lt) is None \
+                        and (body0[0] == f.id or cfg.path(body0[0], [f.id], edge_ok=eq) is None) \
+                        and cfg.path(body0[0], [o_id], avoid=[f.id], edge_ok=eq) is not None
+                    detail = "a lagging group is not drained, or an aligned group is"
+                if ok:
+                    gt = pruned(cfg, lifted(fl, rel_atom("gt")))
+                    ok = bool(wfalse) and all(m != o_id and cfg.path(m, [o_id, cfg.exit], edge_ok=gt) is None for m in wfalse)
+                    detail = "overshooting the target timestamp is not an error"
+    run.check(ok, "C06.SYNC", raw.qual, "while ts < latest: for name in names: fetch_next()", detail,
+              node=raw.node, file=raw.file)
+    # ---- S3: _first_run cleared only after the group loop completed normally
+    clr = [n.id for n in cfg.nodes if n.id in fl.live and any(
+        isinstance(t, ast.Attribute) and t.attr == "_first_run" for t in fl._writes(n.id))]
+    ok = len(clr) == 1 and o_id >= 0
     if ok:
-        preds = cfg.pred[clr[0]]
-        ok = all(a == loops[0].id and lab == "done" for a, lab in preds)
-    run.check(ok, "C06.SYNC", fn.qual, "_first_run = False only after all groups are synchronised",
+        a = cfg.nodes[clr[0]].ast
+        body0 = [m for m, lab in cfg.succ[o_id] if lab == "iter"]
+        ok = isinstance(a, (ast.Assign, ast.AnnAssign)) and isinstance(a.value, ast.Constant) and a.value.value is False \
+            and cfg.path(cfg.entry, clr, avoid=[o_id]) is None \
+            and clr[0] not in cfg.reachable(body0, avoid=[o_id]) \
+            and all(lab == "done" for m, lab in cfg.succ[o_id] if clr[0] in cfg.reachable([m], avoid=[o_id]))
+    run.check(ok, "C06.SYNC", raw.qual, "_first_run = False only after all groups are synchronised",
               "the first-run flag is cleared before the synchronisation completed (a failed "
-              "synchronisation would never be retried)", node=fn.node, file=fn.file)
-    rets = [n for n in body_walk(fn.node) if isinstance(n, ast.Return)]
-    run.check(len(rets) == 1 and u(rets[0].value) == "latest_ts", "C06.SYNC", fn.qual, "returns latest_ts",
-              "the synchronised timestamp is not the one returned", node=fn.node, file=fn.file)
+              "synchronisation would never be retried)", node=raw.node, file=raw.file)
+    # ---- S4: the synchronised timestamp is what is returned
+    rets = fl.returns()
+    ok = bool(rets) and bool(latest_calls) and all(
+        cfg.nodes[r].ast.value is not None and is_latest(cfg.nodes[r].ast.value, r) for r in rets)  # type: ignore[union-attr]
+    run.check(ok, "C06.SYNC", raw.qual, "returns the latest first timestamp",
+              "the synchronised timestamp is not the one returned", node=raw.node, file=raw.file)
 
 
+# ---------------------------------------------------------------------------------------------
 def check_3ph(run: Run, prog: Program) -> None:
-    fn = prog.func(f"{ENGINE}:FormulaEngine3Phase._run")
-    run.analysed(fn.qual)
-    cfg = CFG(fn.node, fn.file)
-    rx = {}
-    for s in body_walk(fn.node):
-        if isinstance(s, ast.Assign) and isinstance(s.value, ast.Call) and u(s.value.func).startswith("self._streams[") \
-                and u(s.value.func).endswith(".new_receiver"):
-            rx[u(s.targets[0])] = u(s.value.func)
-    ok = sorted(rx.values()) == [f"self._streams[{i}].new_receiver" for i in range(3)]
-    run.check(ok, "C06.3PH", fn.qual, "one receiver per phase", f"receivers: {rx}", node=fn.node, file=fn.file)
-    loops = [h for h in cfg.nodes if h.kind == "while"]
+    raw = prog.func(f"{ENGINE}:FormulaEngine3Phase._run")
+    run.analysed(raw.qual)
+    fn = spliced(prog, raw)
+    fl = Flow(prog, fn)
+    cfg = fl.cfg
+    # receivers: one per phase stream
+    rx: dict[int, ast.Call] = {}
+    dup = False
+    for _nid, c in fl.calls(lambda c: isinstance(c.func, ast.Attribute) and c.func.attr == "new_receiver"):
+        base = c.func.value  # type: ignore[union-attr]
+        if isinstance(base, ast.Subscript) and u(base.value) == "self._streams" and isinstance(base.slice, ast.Constant) \
+                and isinstance(base.slice.value, int):
+            dup = dup or base.slice.value in rx
+            rx[base.slice.value] = c
+    ok = sorted(rx) == [0, 1, 2] and not dup
+    run.check(ok, "C06.3PH", raw.qual, "one receiver per phase", f"receivers: {sorted(rx)}", node=raw.node, file=raw.file)
+    loops = [h for h in cfg.nodes if h.kind == "while" and h.id in fl.live]
     if len(loops) != 1:
-        raise AnalysisError(f"{fn.qual}: loop not found")
+        raise AnalysisError(f"{raw.qual}: loop not found")
     h = loops[0]
-    body = cfg.reachable([m for m, lab in cfg.succ[h.id] if lab == "true"], avoid=[h.id])
+    first = [m for m, lab in cfg.succ[h.id] if lab == "true"]
+    body = cfg.reachable(first, avoid=[h.id])
     normal = lambda a, b, lab: not lab.startswith("exc:")  # noqa: E731
-    sends = nodes_with_call(cfg, lambda c: method_call(c, "sender", "send"))
-    for name in rx:
-        recs = [x for x in nodes_with_call(cfg, lambda c: method_call(c, name, "receive")) if x in body]
-        first = [m for m, lab in cfg.succ[h.id] if lab == "true"]
+    sends = [nid for nid, c in fl.calls(lambda c: method_call(c, None, "send")) if isinstance(fl._parent.get(id(c)), ast.Await)]
+    recv: dict[int, list[tuple[int, ast.Call]]] = {i: [] for i in rx}
+    for nid, c in fl.calls(lambda c: method_call(c, None, "receive")):
+        for i, mk in rx.items():
+            if fl.is_node(c.func.value, mk, nid):  # type: ignore[union-attr]
+                recv[i].append((nid, c))
+    for i in sorted(rx):
+        recs = [nid for nid, _c in recv[i] if nid in body]
         wit = cfg.path(first[0], sends, avoid=recs, edge_ok=normal) if first[0] not in recs else None
         twice = cfg.path(recs[0], recs, avoid=[h.id], include_src=False, edge_ok=normal) if recs else None
-        run.check(len(recs) == 1 and wit is None and twice is None, "C06.3PH", fn.qual,
-                  f"{name}.receive() exactly once per round",
-                  "a phase is not received exactly once per emitted three-phase sample", node=fn.node, file=fn.file)
-    ctor = find_calls(fn.node, lambda c: u(c.func) == "Sample3Phase")
-    ok = len(ctor) == 1
+        run.check(len(recs) == 1 and len(recv[i]) == 1 and bool(sends) and wit is None and twice is None, "C06.3PH", raw.qual,
+                  f"phase {i + 1}: receive() exactly once per round",
+                  "a phase is not received exactly once per emitted three-phase sample", node=raw.node, file=raw.file)
+    ctor = [(nid, c) for nid, c in fl.calls(lambda c: u(c.func).split("[")[0] == "Sample3Phase")]
+    ok = len(ctor) == 1 and sorted(rx) == [0, 1, 2]
     if ok:
-        a = [u(x) for x in ctor[0].args]
-        srcs = {}
-        for s in body_walk(fn.node):
-            if isinstance(s, ast.Assign) and isinstance(s.value, ast.Await) and isinstance(s.value.value, ast.Call):
-                srcs[u(s.targets[0])] = u(s.value.value.func.value)  # type: ignore[union-attr]
-        order = sorted(rx, key=lambda k: rx[k])
-        inv = {v: k for k, v in srcs.items()}
-        ok = len(a) == 4 and all(r in inv for r in order) and a[0] == f"{inv[order[0]]}.timestamp" and \
-            a[1:] == [f"{inv[r]}.value" for r in order]
-    run.check(ok, "C06.3PH", fn.qual, "Sample3Phase(p1.timestamp, p1.value, p2.value, p3.value)",
+        nid, c = ctor[0]
+        a = positional(c, ["timestamp", "value_p1", "value_p2", "value_p3"])
+
+        def from_phase(e: ast.AST | None, attr: str, i: int) -> bool:
+            o = fl.origin1(e, nid) if e is not None else None
+            return o is not None and o.kind == "expr" and isinstance(o.node, ast.Attribute) and o.node.attr == attr \
+                and len(recv[i]) == 1 and fl.is_node(o.node.value, recv[i][0][1], o.nid)
+
+        ok = len(a) == 4 and len(c.args) + len(c.keywords) == 4 and from_phase(a.get("timestamp"), "timestamp", 0) \
+            and all(from_phase(a.get(f"value_p{i + 1}"), "value", i) for i in range(3))
+        # what is sent is this sample
+        sent = [(n, x) for n, x in fl.calls(lambda k: method_call(k, None, "send")) if n in sends]
+        ok = ok and bool(sent) and all(len(x.args) == 1 and fl.is_node(x.args[0], c, n) for n, x in sent)
+    run.check(ok, "C06.3PH", raw.qual, "Sample3Phase(p1.timestamp, p1.value, p2.value, p3.value)",
               "the three-phase sample is not built from this round's three received samples in phase order",
-              node=fn.node, file=fn.file)
+              node=raw.node, file=raw.file)
 
 
 CONTROLS = [
@@ -301,9 +741,10 @@ CONTROLS = [
 
 
 def run_rules(run: Run, prog: Program) -> None:
-    check_all(run, prog)
+    rnd = Round(prog)
+    check_all(run, prog, rnd)
     check_one(run, prog)
-    check_ts(run, prog)
+    check_ts(run, prog, rnd)
     check_sync(run, prog)
     fallback_sync(run, prog, rule="C06.FSYNC")
     check_3ph(run, prog)
@@ -332,5 +773,7 @@ def check(run: Run, prog: Program, tier: str) -> str:
                   "synchronisation of its own — reported by a seeding sub-agent as a clean-tree "
                   "observation; it is a scheduling/alignment property this family cannot decide)")
     return ("Exactly-once / must-precede path rules on the exception-aware CFGs of the evaluator and the "
-            "metric fetcher, provenance of the emitted timestamp, loop-shape rules on the first-run "
-            "synchronisation, and the shared fallback-synchronisation rules.")
+            "metric fetcher; provenance of the emitted timestamp by reaching definitions (through locals, "
+            "tuple unpacking and private helpers); three-valued path conditions (pending / None results, "
+            "_first_run, ts <,=,> latest) deciding which CFG branches a scenario can take in the evaluator "
+            "and in the first-run synchronisation; and the shared fallback-synchronisation rules.")
